@@ -643,6 +643,12 @@ class SArr(object):
                     dt = rnp.dtype("f8")
             elif rkind == "arith" and dt.kind == "b":
                 dt = rnp.dtype("i8")    # bool + bool is logical-or in numpy; not used by esutil
+        if r.ndim == 0 and not getattr(self, "_keep0d", False):
+            # NumPy: an operation whose operands are all 0-d returns a scalar, not a 0-d array
+            c = r[()]
+            if _py_isinstance(c, _py_float) and not _py_isinstance(c, rnp.floating):
+                c = rnp.float64(c)
+            return c
         return SArr(r, dt)
 
     def __add__(self, o):
@@ -740,7 +746,11 @@ class SArr(object):
         return self._binop(o, lambda a, b: a != b, rkind="ne")
 
     def _inplace(self, o, f, what):
-        r = f(self, o)
+        self._keep0d = True
+        try:
+            r = f(self, o)
+        finally:
+            self._keep0d = False
         if r is NotImplemented:
             raise TypeError("unsupported in-place operand")
         if self.dt.kind in "iub" and r.dt.kind == "f":
